@@ -107,6 +107,16 @@ fn pattern(seed: u64, n: usize) -> std::vec::Vec<u8> {
     (1..=n as u64).map(|i| ((seed + i * 7) % 251) as u8).collect()
 }
 
+/// An extension-output type as a caller of the crate may define one (the authenticator-data
+/// type is generic in it): two optional byte strings larger than any built-in output.
+#[derive(Clone, Debug, Eq, PartialEq, serde::Serialize)]
+struct CallerExt {
+    #[serde(rename = "credBlob", skip_serializing_if = "Option::is_none")]
+    cred_blob: Option<ctap_types::Bytes<400>>,
+    #[serde(rename = "hmac-secret", skip_serializing_if = "Option::is_none")]
+    hmac_secret: Option<ctap_types::Bytes<400>>,
+}
+
 pub fn authdata(inp: &Value) -> R<Value> {
     let i = field(inp, "in")?;
     let flavour = field(i, "flavour")?.as_str().ok_or("flavour")?;
@@ -143,6 +153,24 @@ pub fn authdata(inp: &Value) -> R<Value> {
             }
             let e = match ext { Some(e) => Some(build::ga_ext_out(e)?), None => None };
             let ad = get_assertion::AuthenticatorData {
+                rp_id_hash: &hash, flags, sign_count: count,
+                attested_credential_data: None::<get_assertion::NoAttestedCredentialData>, extensions: e,
+            };
+            ad.serialize()
+        }
+        // a caller-defined extension-output type through the generic AuthenticatorData
+        "custom" => {
+            if acd_val.is_some() {
+                return Err("custom flavour has no attested credential data".into());
+            }
+            let e = match ext {
+                Some(e) => Some(CallerExt {
+                    cred_blob: build::opt_field(e, "credBlob", build::hbytes)?,
+                    hmac_secret: build::opt_field(e, "hmacSecret", build::hbytes)?,
+                }),
+                None => None,
+            };
+            let ad = ctap2::AuthenticatorData {
                 rp_id_hash: &hash, flags, sign_count: count,
                 attested_credential_data: None::<get_assertion::NoAttestedCredentialData>, extensions: e,
             };
